@@ -101,7 +101,7 @@ def plugins_of(args: List[str]) -> List[str]:
     return out
 
 
-def run_build_command(args: List[str], out_dir: str, repo: str) -> Tuple[int, str]:
+def run_build_command(args: List[str], out_dir: str, repo: str, hashseed: str = "0") -> Tuple[int, str]:
     """Run one build-path invocation with its output redirected to out_dir (the only change made to the command)."""
     clean = []
     skip = False
@@ -115,8 +115,7 @@ def run_build_command(args: List[str], out_dir: str, repo: str) -> Tuple[int, st
         clean.append(a)
     td = os.path.join(out_dir, "__tests__")
     os.makedirs(td, exist_ok=True)
-    env = dict(os.environ, PYTHONPATH=repo, PYTHONDONTWRITEBYTECODE="1")
-    env.pop("PYTHONHASHSEED", None)
+    env = dict(os.environ, PYTHONPATH=repo, PYTHONDONTWRITEBYTECODE="1", PYTHONHASHSEED=hashseed)
     try:
         p = subprocess.run([gen.PY, "-m", "generator"] + clean + ["--output-dir", out_dir, "--test-dir", td], cwd=repo, env=env, capture_output=True, text=True, timeout=900)
         return p.returncode, (p.stdout + p.stderr)[-3000:]
@@ -153,6 +152,26 @@ def main(argv: List[str]) -> int:
         for p_ in pl:
             if p_ in ("python", "rust") and p_ not in outs:
                 outs[p_] = (rc_, log_, od)
+    # the build does not fix the string-hash seed: the generated files must not depend on it (same bytes under seeds 0..3)
+    seed_runs = 0
+    for ci, c in enumerate(cmds):
+        pl = plugins_of(c)
+        if not ({"python", "rust"} & set(pl)):
+            continue
+        ref_files = {t: find_file(os.path.join(tmp, f"cmd{ci}"), t) for t in ("lsprotocol/types.py", "lsprotocol/src/lib.rs")}
+        for sd in ("1", "2", "3"):
+            od = os.path.join(tmp, f"cmd{ci}-seed{sd}")
+            rc_, log_ = run_build_command(c, od, REPO, hashseed=sd)
+            seed_runs += 1
+            for tail, ref in ref_files.items():
+                other = find_file(od, tail)
+                if ref and other and open(ref, "rb").read() != open(other, "rb").read():
+                    import difflib
+
+                    a_, b_ = open(ref, encoding="utf-8").read().splitlines(), open(other, encoding="utf-8").read().splitlines()
+                    first = next((l for l in difflib.unified_diff(a_, b_, "PYTHONHASHSEED=0", f"PYTHONHASHSEED={sd}", n=0, lineterm="") if l[:1] in "+-" and l[:3] not in ("+++", "---")), "")
+                    run.violation(f"regen:{tail.split('/')[-1]}:hash-seed", f"`python -m generator {' '.join(c)}` writes a different {tail} under PYTHONHASHSEED={sd} than under 0 (first difference: {first[:160]}): the committed file cannot be 'what the generator emits'", {"command": c, "seeds": ["0", sd], "first_difference": first, "replay": f"PYTHONHASHSEED={sd} python -m generator {' '.join(c)} --output-dir <scratch>; cmp with the PYTHONHASHSEED=0 output"}, True)
+            shutil.rmtree(od, ignore_errors=True)
     samples: List[Any] = []
     disagreements = 0
     programs = 0
@@ -229,6 +248,7 @@ def main(argv: List[str]) -> int:
             "exhaustive": True,
             "build_commands": [" ".join(["python", "-m", "generator"] + c) for c in cmds],
             "build_commands_from": how,
+            "hash_seed_runs": seed_runs,
             "explanation": "run-time evaluation of the postcondition 'output == committed file (mod formatter)' on the single configuration the property quantifies over",
         }
     )
